@@ -4,7 +4,7 @@ use crate::fam_insrem::shape_invariant;
 use serde_json::{json, Value};
 use toodee::{TooDee, TooDeeOps};
 
-const TRANSPORTS: [&str; 4] = ["str", "value", "slice", "reader"];
+const TRANSPORTS: [&str; 5] = ["str", "value", "slice", "reader", "in_place"];
 const NAMES: [&str; 4] = ["num_cols", "num_rows", "data", "extra"];
 
 fn dim_values() -> Vec<&'static str> {
@@ -28,6 +28,17 @@ fn emit(f: &mut dyn FnMut(Value) -> bool, fields: &[(String, String)]) -> bool {
 
 pub fn cases(f: &mut dyn FnMut(Value) -> bool) {
     // raw, non-object or odd documents
+    // unknown keys that are long and contain multi-byte characters around byte offsets 16 / 32 / 64
+    for pad in [15usize, 16, 30, 31, 32, 62, 63, 64] {
+        let key: String = format!("{}\u{e9}\u{4e16}tail", "a".repeat(pad));
+        for doc in [format!("{{\"{}\":1,\"num_cols\":1,\"num_rows\":1,\"data\":[7]}}", key), format!("{{\"num_cols\":1,\"num_rows\":1,\"data\":[7],\"{}\":1}}", key)] {
+            for tr in TRANSPORTS {
+                if !f(json!({"raw": doc, "transport": tr})) {
+                    return;
+                }
+            }
+        }
+    }
     for raw in ["null", "5", "\"x\"", "[]", "[2,1,[1,2]]", "[[\"num_cols\",2]]", "{}", "true", "{\"num_cols\":2,\"num_rows\":1,\"data\":[1,2]}garbage", "", "{", "{\"data\":[1,2],\"num_cols\":2,\"num_rows\":1,}"] {
         for tr in TRANSPORTS {
             if !f(json!({"raw": raw, "transport": tr})) {
@@ -174,6 +185,21 @@ fn deserialize(doc: &str, tr: &str) -> Result<Result<TooDee<u32>, String>, ()> {
             "str" => serde_json::from_str(doc).map_err(|e| e.to_string()),
             "slice" => serde_json::from_slice(doc.as_bytes()).map_err(|e| e.to_string()),
             "reader" => serde_json::from_reader(doc.as_bytes()).map_err(|e| e.to_string()),
+            "in_place" => {
+                // into an already populated array: Ok must give the document's array, Err must leave a valid array
+                let mut target: TooDee<u32> = TooDee::from_vec(2, 2, vec![91, 92, 93, 94]);
+                let mut de = serde_json::Deserializer::from_str(doc);
+                let r = serde::Deserialize::deserialize_in_place(&mut de, &mut target).and_then(|_| de.end());
+                match r {
+                    Ok(()) => Ok(target),
+                    Err(e) => {
+                        if target.num_cols() * target.num_rows() != target.data().len() || (target.num_cols() == 0) != (target.num_rows() == 0) {
+                            panic!("deserialize_in_place failed and left the target with dims ({},{}) over {} cells", target.num_cols(), target.num_rows(), target.data().len());
+                        }
+                        Err(e.to_string())
+                    }
+                }
+            }
             "value" => {
                 let v: Value = serde_json::from_str(doc).map_err(|e| format!("(not JSON) {}", e))?;
                 serde_json::from_value(v).map_err(|e| e.to_string())
